@@ -895,6 +895,30 @@ fn config_files(run: &mut Run) {
         if let Some(Ok(t)) = first_ttl(base_args()) {
             if t != 1 { run.fail("c16-config-file-location", format!("no configuration file anywhere: first-ttl {t}, default 1")); }
         }
+        // the file in the encodings the reader accepts (byte-order-mark sniffing), and with CRLF line ends
+        if xdg_set {
+            let text = "[strategy]\r\nfirst-ttl = 9\r\n\r\n[tui]\r\ntui-privacy-max-ttl = 3\r\n";
+            let utf16 = |be: bool| -> Vec<u8> {
+                let mut v: Vec<u8> = if be { vec![0xfe, 0xff] } else { vec![0xff, 0xfe] };
+                for u in text.encode_utf16() { v.extend(if be { u.to_be_bytes() } else { u.to_le_bytes() }); }
+                v
+            };
+            let forms: [(&str, Vec<u8>); 4] = [
+                ("UTF-8, CRLF", text.as_bytes().to_vec()),
+                ("UTF-8 with a byte-order mark", [&[0xef, 0xbb, 0xbf][..], text.as_bytes()].concat()),
+                ("UTF-16 little-endian with a byte-order mark", utf16(false)),
+                ("UTF-16 big-endian with a byte-order mark", utf16(true)),
+            ];
+            for (what, bytes) in forms {
+                if !reset(&[]) || std::fs::write(&locations[0].1, &bytes).is_err() { continue; }
+                run.count("cfgfiles:encoding");
+                let got = guarded(|| TrippyConfig::from(base_args(), &privilege(), PID)).ok().map(|r| r.map(|c| (c.first_ttl, c.tui_privacy_max_ttl)).map_err(|e| e.to_string()));
+                match got {
+                    Some(Ok((9, Some(3)))) => {}
+                    other => run.fail("c16-config-file-location", format!("configuration file in the current directory, {what}, setting first-ttl = 9 and tui-privacy-max-ttl = 3: effective {other:?}")),
+                }
+            }
+        }
         for i in 0..locations.len() {
             let ttl_i = 2 + i as u8;
             // alone
